@@ -1,4 +1,5 @@
 import Skv.Lemmas.Lock
+import Skv.Lemmas.TaskStop
 /-!
 # C19 — one live instance per database directory
 
@@ -103,3 +104,29 @@ theorem C19_reopen_after_failed_open (ops : List LOp) (j i : Nat)
   have hh : (LState.run {} ops).holder = some j := (h.liveIff j).mp (by rw [hj]; rfl)
   simp only [LState.step, hj]
   simp [hij, hi, hh]
+
+
+/-! ## a store that goes away lets go of its background tasks (and with them of the directory lock)
+
+The two background tasks hold a reference to the store core — its open files and the `LOCK` handle.
+`TaskManager::stop` and `Drop for TaskManager` set the stop flag and call `notify_one`. -/
+
+/-- **C19 (the tasks exit).** Whatever the task was doing when the flag was set and `notify_one` was
+called — not yet polled, busy, parked — and whatever happens afterwards (more notifications, the task's own
+steps), the task ends up exited once it has run: it cannot stay parked with the store core in its hands. -/
+theorem C19_background_task_exits (s : TState) (ops : List TOp) :
+    (((s.step .setStop).step .notifyOne).run ops).settle.phase = .exited := by
+  apply settle_exits
+  generalize hs0 : (s.step .setStop).step .notifyOne = s0
+  have h0 : StopInv s0 := hs0 ▸ stopInv_after s
+  clear hs0
+  induction ops generalizing s0 with
+  | nil => exact h0
+  | cons op ops ih => exact ih _ (stopInv_step s0 h0 op (Or.inr trivial))
+
+/-- the seeded change (`notify_waiters` in `Drop`), kernel-checked: a task that has not reached its first
+`notified().await` yet misses the wake-up and parks for good, the flag set -/
+theorem notify_waiters_misses_unparked_task :
+    let s := ((({} : TState).step .setStop).step .notifyWaiters).settle
+    s.phase = .parked ∧ s.stop = true ∧
+      (((({} : TState).step .setStop).step .notifyOne).settle).phase = .exited := by decide
